@@ -389,6 +389,46 @@ func run(r *Rng, tier string, n int) {
 			st["beyond_64k_messages"]++
 		}
 	}
+	// replies built from records that came OFF THE WIRE and were edited afterwards (the OPT of the request with
+	// options added, answers with their RDATA changed): the header's Rdlength still holds the old wire length.
+	// It is bookkeeping, not a measure: every clause must hold whatever it says (also 0, 1, 65535)
+	for round := 0; round < 4; round++ {
+		q := new(dns.Msg)
+		q.SetQuestion("www.example.org.", dns.TypeA)
+		q.SetEdns0(1232, true)
+		q.IsEdns0().Option = []dns.EDNS0{&dns.EDNS0_COOKIE{Code: dns.EDNS0COOKIE, Cookie: "0011223344556677"}}
+		qw, err := q.Pack()
+		if err != nil {
+			break
+		}
+		var req dns.Msg
+		if req.Unpack(qw) != nil {
+			break
+		}
+		opt := req.IsEdns0()
+		opt.Option = append(opt.Option, &dns.EDNS0_NSID{Code: dns.EDNS0NSID, Nsid: strings.Repeat("ab", 13)}, &dns.EDNS0_PADDING{Padding: make([]byte, 40*round)})
+		opt.Option[0].(*dns.EDNS0_COOKIE).Cookie = strings.Repeat("0f", 24)
+		reply := new(dns.Msg)
+		reply.SetReply(&req)
+		for j := 0; j < 60; j++ {
+			reply.Answer = append(reply.Answer, &dns.A{Hdr: dns.RR_Header{Name: "www.example.org.", Rrtype: dns.TypeA, Class: 1, Ttl: 60}, A: []byte{192, 0, 2, byte(j)}})
+		}
+		reply.Extra = []dns.RR{opt}
+		for _, stale := range []int{-1, 0, 1, 65535} {
+			rc := reply.Copy()
+			if stale >= 0 {
+				for _, sec := range [][]dns.RR{rc.Answer, rc.Extra} {
+					for _, rr := range sec {
+						rr.Header().Rdlength = uint16(stale)
+					}
+				}
+			}
+			for _, sz := range []int{512, 600, 900, 1232} {
+				checkTruncate(rc.Copy(), sz, true, false)
+			}
+			st["edited_wire_records_messages"]++
+		}
+	}
 	// TSIG: untouched
 	m := new(dns.Msg)
 	m.SetQuestion("example.org.", dns.TypeA)
